@@ -46,6 +46,9 @@ type c17Program struct {
 	WrongASN  int        `json:"connections_with_unexpected_asn"` // the first k connections answer with an unexpected ASN
 	IBGP      bool       `json:"ibgp"`
 	Peer2Byte bool       `json:"peer_without_4byte_asn"`
+	// CapFlip: connections after the first one answer with the opposite 4-byte-ASN capability (the peer was replaced or
+	// reconfigured between two connections): what is negotiated belongs to a connection, not to the session
+	CapFlip bool `json:"peer_capability_differs_after_first_connection,omitempty"`
 	// HoldS: hold time of the session parameters in seconds: -1 = not set (default 90), 0 = keepalives disabled
 	HoldS *int `json:"hold_time_s,omitempty"`
 }
@@ -167,6 +170,13 @@ func (h *c17H) connEnded(c *vconn) {
 	}
 }
 
+func (h *c17H) peer2Byte(c *vconn) bool {
+	if h.prog.CapFlip && c.id > 0 {
+		return !h.prog.Peer2Byte
+	}
+	return h.prog.Peer2Byte
+}
+
 func (h *c17H) peerOpen(c *vconn) []byte {
 	asn := h.peerASN
 	if c.wrongASN {
@@ -174,7 +184,7 @@ func (h *c17H) peerOpen(c *vconn) []byte {
 	}
 	var b []byte
 	caps := []byte{1, 4, 0, 1, 0, 1}
-	if !h.prog.Peer2Byte {
+	if !h.peer2Byte(c) {
 		caps = append(caps, 65, 4, byte(asn>>24), byte(asn>>16), byte(asn>>8), byte(asn))
 	}
 	opt := append([]byte{2, byte(len(caps))}, caps...)
@@ -196,7 +206,7 @@ func (h *c17H) peerFeed(c *vconn) {
 		if len(c.in) < l {
 			return
 		}
-		asn4 := !h.prog.Peer2Byte
+		asn4 := !h.peer2Byte(c)
 		m, _, err := wireDecode(c.in[:l], asn4)
 		c.in = c.in[l:]
 		if err != nil {
@@ -451,6 +461,8 @@ func c17Programs(thorough bool) []c17Program {
 		{Name: "wrong-asn-first;set-A;set-B", Sets: [][]c17Adv{A, {a3}}, WrongASN: 1},
 		{Name: "set-A;set-B;drop2", Sets: [][]c17Adv{A, {a2, a3}}, Drops: 2},
 		{Name: "2byte-peer;set-A;set-B;drop1", Sets: [][]c17Adv{A, {a3}}, Drops: 1, Peer2Byte: true},
+		{Name: "4byte-peer-then-2byte-peer;set-A;set-B;drop1", Sets: [][]c17Adv{A, {a3}}, Drops: 1, CapFlip: true},
+		{Name: "2byte-peer-then-4byte-peer;set-A;drop1", Sets: [][]c17Adv{A}, Drops: 1, Peer2Byte: true, CapFlip: true},
 		// the connection stays up: what the peer holds is exactly what the incremental updates made of it
 		{Name: "ibgp;set-A;set-localpref-only-change;no-drop", Sets: [][]c17Adv{{a1lp1, a2}, {a1lp2, a2}}, IBGP: true},
 		{Name: "ebgp;set-A;set-localpref-only-change;no-drop", Sets: [][]c17Adv{{a1lp1, a2}, {a1lp2, a2}}},
